@@ -138,8 +138,15 @@ func startSpec(spec *ChildSpec) (*Inst, error) {
 	ns.Objects().AddRef(v, id.HasComponent, true)
 	big := ns.AddNewVariableStringNode("big", bytes.Repeat([]byte{0x5a}, 60000))
 	ns.Objects().AddRef(big, id.HasComponent, true)
+	// ns=2: a map-backed namespace (other locking, other code path for Read / Write / notifications)
+	mp := server.NewMapNamespace(s, "verifmap")
+	mp.Data["m"] = int32(7)
+	mp.Data["t"] = "text"
 	return StartServer(s)
 }
+
+// TestMapVar is a variable of the map-backed namespace ns=2.
+func TestMapVar() *ua.NodeID { return ua.NewStringNodeID(2, "m") }
 
 // stderrLogger prints the server's warnings and errors (debugging aid: VERIF_SRV_LOG=1).
 type stderrLogger struct{}
